@@ -108,10 +108,13 @@ def rainfall_partition(
             xx = 0
             wrel = np.zeros(comp_sto)
             for ii in range(comp_sto):
-                if prof.dzsum[ii] > Soil_zCN:
-                    prof.dzsum[ii] = Soil_zCN
+                # depth of the compartment bottom, limited to the curve number depth
+                # (local value: the soil profile itself must not be modified)
+                zz = prof.dzsum[ii]
+                if zz > Soil_zCN:
+                    zz = Soil_zCN
 
-                wx = 1.016 * (1 - np.exp(-4.16 * (prof.dzsum[ii] / Soil_zCN)))
+                wx = 1.016 * (1 - np.exp(-4.16 * (zz / Soil_zCN)))
                 wrel[ii] = wx - xx
                 if wrel[ii] < 0:
                     wrel[ii] = 0
